@@ -18,6 +18,7 @@ from mc import alphabets as A
 from mc.harness import Result, Sub
 from mc.ref.base import mk_snaps, write_neighbor_file
 from mc.ref import dyn as RD
+from mc.ref import c06x as X
 
 ASSUMPTIONS = [
     "trajectories: every particle moves per appended frame by one letter of {0, +s e_x, -s e_y, +b e_x (, +s e_z in 3D)}, "
@@ -35,6 +36,15 @@ ASSUMPTIONS = [
     "compared in that state (never happens for seeds 0..2)",
     "alpha2 of a lag with zero msd is NaN in implementation and reference alike (0/0)",
     "float tolerance rtol 1e-9 / atol 1e-11",
+    "C06.scale enumerates SIZES (frames 63..129 x 2/5 particles, 64..257(1000) particles x 3/5 frames) with ONE fixed value pattern per size "
+    "(mc/ref/c06x.py: mixed / arrested / ballistic / hopping / diffusive particles from the step alphabet {0, +-s e_a, +-b e_a}); the cell "
+    "is the same in every frame (displacements between frames with different cells are not defined by the statement; the x-only path "
+    "reduces with the cell of the origin frame) and species stay attached to the ids (diameters are taken from frame 0)",
+    "C06.scale / C06.sequence neighbour lists are harness-written formula lists (distinct other ids, 1..4 neighbours, one particle with "
+    "30 = max_neighbors in the 'wide' variant), different in every frame; coordination numbers never exceed max_neighbors (truncation "
+    "to the first max_neighbors entries is documented by the reader, not by this property)",
+    "C06.sequence: the same call on a re-used object must agree with the call on a fresh object within twice the float tolerance "
+    "(both are within one tolerance of the definition); the fresh results themselves are compared with the reference",
 ]
 
 COLS = "t isf Qt X4_Qt msd alpha2".split()
@@ -579,6 +589,373 @@ def gen_s4(tier, seed):
         yield from roots(S, 2, 2, 4, "pp", "face", {"mode": "both"}, [], qrange=3.2, L=[8.0, 16.0])
 
 
+# ------------------------------------------------------------------------------------------ scale slice
+SCALE_DEFAULT = {"d": 2, "mode": "xu", "cal": "slow", "sel": "none", "neigh": "none", "diam": "mixed", "qconst": "2pi", "a": 0.3}
+SCALE_DOMS = collections.OrderedDict(
+    [
+        ("d", [2, 3]),
+        ("mode", ["xu", "x", "both"]),
+        ("cal", ["slow", "fast"]),
+        ("sel", ["none", "one", "most", "half"]),
+        ("neigh", ["none", "first", "last", "formula", "wide"]),
+        ("diam", ["mixed", "eq"]),
+        ("qconst", ["2pi", "5", "7.25"]),
+        ("a", [0.3, 0.5]),
+    ]
+)
+QCONST["7.25"] = 7.25
+# hand-made covering list: every value of every option, and the pairs that matter (wrapped input x cage, changing mask x ragged list,
+# fast x mixed diameters, count-1 mask x cage)
+SCALE_CORE = [
+    {},
+    {"d": 3, "mode": "x", "cal": "fast", "sel": "most", "neigh": "first", "diam": "eq", "qconst": "5"},
+    {"mode": "both", "sel": "one", "neigh": "last", "qconst": "5"},
+    {"d": 3, "cal": "fast", "sel": "half", "neigh": "formula"},
+    {"mode": "x", "sel": "most", "neigh": "formula", "a": 0.5},
+    {"d": 3, "mode": "both", "cal": "fast", "neigh": "wide", "diam": "eq"},
+    {"mode": "x", "sel": "one", "neigh": "first", "diam": "eq", "qconst": "5"},
+    {"d": 3, "mode": "x", "sel": "half", "neigh": "last", "qconst": "7.25"},
+]
+SCALE_TN_QUICK = [(65, 5), (66, 2), (129, 5), (64, 2), (3, 64), (5, 65), (5, 130), (3, 257)]
+SCALE_TN_FULL = [(T, N) for T in (63, 64, 65, 66, 129) for N in (2, 5)] + [(T, N) for N in (64, 65, 130, 257) for T in (3, 5)] + [(3, 1000)]
+
+
+def scale_lags(T):
+    if T <= 6:
+        return list(range(1, T))
+    return sorted({1, 3, 6, 7, T // 2, T - 2})
+
+
+def gen_scale(tier, seed):
+    sizes = SCALE_TN_QUICK if tier == "quick" else SCALE_TN_FULL
+    vecs = [dict(SCALE_DEFAULT, **o) for o in SCALE_CORE]
+    if tier == "thorough":
+        for ov in option_vectors(1, SCALE_DOMS):
+            if ov not in vecs:
+                vecs.append(ov)
+    for (T, N) in sizes:
+        for ov in vecs:
+            yield {"sub": "C06.scale", "T": T, "N": N, "opts": dict(ov), "lags": scale_lags(T)}
+
+
+def scale_world(case):
+    seed = int(case["seed"])
+    T, N = case["T"], case["N"]
+    o = case["opts"]
+    d = o["d"]
+    xs, L, maxdisp = X.trajectory(seed, T, N, d)
+    types = X.types_for(N)
+    diam = DIAMS[o["diam"]]
+    sigma = [diam[t] for t in types]
+    masks = None if o["sel"] == "none" else X.masks_for(T, N, o["sel"])
+    nls = None if o["neigh"] == "none" else [X.ragged_lists(N, t, o["neigh"]) for t in range(T)]
+    return xs, L, maxdisp, types, diam, sigma, masks, nls
+
+
+def scale_objects(cls, mode, xs, L, types, steps, kw):
+    from PyMatterSim.dynamic.dynamics import Dynamics, LogDynamics
+
+    C = Dynamics if cls == "lin" else LogDynamics
+    d = xs.shape[2]
+    H = np.diag(L)
+    ones = np.ones(d, dtype=int)
+    if mode == "xu":
+        sn = [mk_snaps(list(xs), H, types, steps=steps)]
+        return C(xu_snapshots=sn[0], ppp=np.zeros(d, dtype=int), **kw), sn
+    if mode == "x":
+        sn = [mk_snaps(list(X.wrap(xs, L)), H, types, steps=steps)]
+        return C(x_snapshots=sn[0], ppp=ones, **kw), sn
+    sn = [mk_snaps(list(xs), H, types, steps=steps), mk_snaps(list(X.wrap(xs, L)), H, types, steps=steps)]
+    return C(xu_snapshots=sn[0], x_snapshots=sn[1], ppp=ones, **kw), sn
+
+
+def run_scale(case):
+    R = Result()
+    T, N = case["T"], case["N"]
+    o = case["opts"]
+    d, mode = o["d"], o["mode"]
+    xs, L, maxdisp, types, diam, sigma, masks, nls = scale_world(case)
+    fast = o["cal"] == "fast"
+    a = float(o["a"])
+    qconst = QCONST[o["qconst"]]
+    sig = {"d": d, "mode": mode, "cal": o["cal"], "sel": o["sel"], "neigh": o["neigh"], "diam": o["diam"], "scale": True,
+           "regime": "frames" if T > N else "particles"}
+    where = f"T={T} N={N} opts={o}"
+    assert maxdisp < min(L) / 2.0 - 1e-6  # by construction of the box (domain of the wrapped == unwrapped clause)
+    nfile = ""
+    if nls is not None:
+        nfile = "c06_nls.dat"
+        write_neighbor_file(nfile, nls)
+    kw = dict(dt=DT, diameters=dict(diam), a=a, cal_type=o["cal"], neighborfile=nfile)
+    ref = X.Ref(xs, sigma, a, fast, sel=masks, nls=nls)
+    h = hashlib.sha1()
+    rows = 0
+    stats = {"q_mixed": 0, "chi": 0, "s4": 0, "s4_outside": 0, "s4_inexact": 0, "skipq": 0}
+    for cls in ("lin", "log"):
+        steps = [500 + 100 * t for t in range(T)] if cls == "lin" else [500 + 3 * t + (t * (t + 1)) // 2 for t in range(T)]
+        times = [(s_ - steps[0]) * DT for s_ in steps]
+        exp, margin = ref.relaxation(qconst, times, log=(cls == "log"))
+        D, snaps = scale_objects(cls, mode, xs, L, types, steps, kw)
+        before = [[s_.positions.copy() for s_ in sn.snapshots] for sn in snaps]
+        cond = None if masks is None else (masks[0].copy() if cls == "log" else masks.copy())
+        res = D.relaxation(qconst=qconst, condition=cond)
+        name = ("LogDynamics" if cls == "log" else "Dynamics") + ".relaxation"
+        if list(res.columns) != COLS:
+            R.fail(f"{name}: columns {list(res.columns)} ({where})", sig=dict(sig, cls=cls, col="columns"))
+            continue
+        obs = res.values.astype(float)
+        skipq = margin < X.CUT_MARGIN
+        stats["skipq"] += int(skipq)
+        df = table_diff(obs, exp, skipq)
+        rows += exp.shape[0]
+        if df is not None:
+            col, k, ov, rv = df
+            if col == "shape":
+                R.fail(f"{name}[{mode}]: table shape {ov}, expected {rv} ({where})", sig=dict(sig, cls=cls, col="shape"))
+            else:
+                R.fail(f"{name}[{mode}]: column {col} row {k} (lag {k + 1} of {T - 1}) = {ov!r}, reference {rv!r} ({where})",
+                       sig=dict(sig, cls=cls, col=col), exp=exp[max(0, k - 1):k + 2], obs=obs[max(0, k - 1):k + 2])
+        for sn, bf in zip(snaps, before):
+            for s_, b_ in zip(sn.snapshots, bf):
+                if not np.array_equal(s_.positions, b_):
+                    R.fail("snapshot positions modified by relaxation()", sig=dict(sig, clause="input_modified"))
+                    break
+        if masks is not None and not np.array_equal(cond, masks[0] if cls == "log" else masks):
+            R.fail("condition modified by relaxation()", sig=dict(sig, clause="input_modified"))
+        if obs.shape == exp.shape:
+            stats["chi"] += int(cls == "lin" and np.nanmax(np.abs(obs[:, 3])) > 1e-9)
+            stats["q_mixed"] += int(np.any((obs[:, 2] > 0.0) & (obs[:, 2] < 1.0)))
+            h.update(np.round(np.nan_to_num(obs, nan=-7.0), 9).tobytes())
+    # ---- four-point structure factor at several lags (incl. lags whose quotient t / interval is inexact in floating point)
+    steps = [500 + 100 * t for t in range(T)]
+    time0 = float(((np.array(steps)[1:] - steps[0]) * DT)[0])
+    qrange = round(6.5 * math.pi / max(L), 9)  # numofq = int(6.5) = 6 for every box
+    qvecs = RD.qset(L, qrange, d)
+    pos_sq = xs if mode == "xu" else X.wrap(xs, L)
+    for k in case["lags"]:
+        got = ref.sq4(k, pos_sq, L, qvecs)
+        if got is None or got[1] < X.CUT_MARGIN or X.key_gap(got[0]) < 1e-6:
+            stats["s4_outside"] += 1
+            continue
+        groups, margin, sizes = got
+        t_arg = round(k * 100 * DT, 9)
+        stats["s4_inexact"] += int(t_arg / time0 != float(k))
+        D, snaps = scale_objects("lin", mode, xs, L, types, steps, kw)
+        cond = None if masks is None else masks.copy()
+        res = D.sq4(t=t_arg, qrange=qrange, condition=cond)
+        stats["s4"] += 1
+        if list(res.columns) != ["q", "Sq"]:
+            R.fail(f"sq4: columns {list(res.columns)}", sig=dict(sig, clause="s4", col="columns"))
+            continue
+        obs = res.values.astype(float)
+        exp = np.array([[g[1], g[2]] for g in groups])
+        rows += len(exp)
+        bad = None
+        if obs.shape != exp.shape:
+            bad = f"{obs.shape[0]} distinct |q|, reference {exp.shape[0]}"
+        elif not np.allclose(obs[:, 0], exp[:, 0], rtol=0, atol=0.6e-8):
+            bad = "q column differs"
+        elif not np.allclose(obs[:, 1], exp[:, 1], rtol=1e-9, atol=0.5000001e-8 + 1e-11):
+            j = int(np.argmax(np.abs(obs[:, 1] - exp[:, 1])))
+            bad = f"S4(q={exp[j, 0]:.6f}) = {obs[j, 1]!r}, reference {exp[j, 1]!r} (mobile subset sizes {min(sizes)}..{max(sizes)} over {len(sizes)} origins)"
+        if bad:
+            R.fail(f"Dynamics.sq4[{mode}] lag {k} (t={t_arg!r}): {bad} ({where})", sig=dict(sig, clause="s4", col="Sq"), exp=exp, obs=obs)
+        if masks is not None and not np.array_equal(cond, masks):
+            R.fail("condition modified by sq4()", sig=dict(sig, clause="input_modified"))
+        h.update(np.round(obs, 7).tobytes())
+    if nfile:
+        os.remove(nfile)
+    R.out = h.hexdigest()[:16]
+    R.elem = rows
+    # rule: the overlap is strictly between 0 and 1 in some row and (unless the case selects one particle per frame, where the mobile
+    # selected subset is empty at some origin for most lags) at least one S4 lag was inside the domain and compared
+    R.nontrivial = stats["q_mixed"] > 0 and (stats["s4"] > 0 or o["sel"] == "one")
+    R.notes = stats
+    return R
+
+
+# ------------------------------------------------------------------------------------------ call sequences on one object
+SEQ_EVENTS_LIN = ["r1", "r2", "rc", "rd", "s1", "s3", "sc", "B"]
+SEQ_EVENTS_LOG = ["r1", "r2", "rc", "rd", "B"]
+
+
+def gen_sequence(tier, seed):
+    for cls in ("lin", "log"):
+        evs = SEQ_EVENTS_LIN if cls == "lin" else SEQ_EVENTS_LOG
+        for d in (2, 3):
+            for mode in ("xu", "x", "both"):
+                for neigh in ("none", "formula"):
+                    if tier == "quick" and cls == "log" and mode == "both":
+                        continue
+                    for first in evs:
+                        yield {"sub": "C06.sequence", "cls": cls, "d": d, "mode": mode, "neigh": neigh, "first": first, "depth": 3}
+
+
+class SeqWorld:
+    """two small trajectories (object A: T=5, N=5; object B: T=4, N=3, other diameters / cutoff / mode) and the call alphabet"""
+
+    def __init__(self, case):
+        seed = int(case["seed"])
+        self.cls, self.d, self.mode, self.neigh = case["cls"], case["d"], case["mode"], case["neigh"]
+        d = self.d
+        self.T, self.N = 5, 5
+        self.xs, self.L, _ = X.trajectory(seed, self.T, self.N, d)
+        self.types = X.types_for(self.N)
+        self.diam = DIAMS["mixed"]
+        self.sigma = [self.diam[t] for t in self.types]
+        self.nls = None if self.neigh == "none" else [X.ragged_lists(self.N, t, "formula") for t in range(self.T)]
+        self.most = X.masks_for(self.T, self.N, "most")
+        self.one = X.masks_for(self.T, self.N, "one")
+        self.steps = [500 + 100 * t for t in range(self.T)] if self.cls == "lin" else [500 + 3 * t + (t * (t + 1)) // 2 for t in range(self.T)]
+        self.nfile = ""
+        if self.nls is not None:
+            self.nfile = "c06_seq.dat"
+            write_neighbor_file(self.nfile, self.nls)
+        self.kw = dict(dt=DT, diameters=dict(self.diam), a=0.3, cal_type="slow", neighborfile=self.nfile)
+        # object B: another trajectory, fast, a = 0.5, equal diameters, no neighbour file, always xu
+        self.xsB, self.LB, _ = X.trajectory(seed + 17, 4, 3, d)
+        self.kwB = dict(dt=DT, diameters=dict(DIAMS["eq"]), a=0.5, cal_type="fast", neighborfile="")
+        self.stepsB = [0, 50, 100, 150] if self.cls == "lin" else [0, 1, 10, 100]
+        self.qrange = {"s1": round(6.5 * math.pi / max(self.L), 9), "s3": round(8.5 * math.pi / max(self.L), 9)}
+
+    def fresh_A(self):
+        return scale_objects(self.cls, self.mode, self.xs, self.L, self.types, self.steps, self.kw)
+
+    def fresh_B(self):
+        return scale_objects(self.cls, "xu", self.xsB, self.LB, X.types_for(3), self.stepsB, self.kwB)
+
+    def cond(self, m):
+        return m[0].copy() if self.cls == "log" else m.copy()
+
+    def call(self, ev, Aobj, Bobj):
+        if ev == "r1":
+            return Aobj.relaxation(qconst=2 * math.pi).values.astype(float)
+        if ev == "r2":
+            return Aobj.relaxation(qconst=5.0).values.astype(float)
+        if ev == "rc":
+            return Aobj.relaxation(qconst=2 * math.pi, condition=self.cond(self.most)).values.astype(float)
+        if ev == "rd":
+            return Aobj.relaxation(qconst=5.0, condition=self.cond(self.one)).values.astype(float)
+        if ev == "s1":
+            return Aobj.sq4(t=round(1 * 100 * DT, 9), qrange=self.qrange["s1"]).values.astype(float)
+        if ev == "s3":
+            return Aobj.sq4(t=round(3 * 100 * DT, 9), qrange=self.qrange["s3"]).values.astype(float)
+        if ev == "sc":
+            return Aobj.sq4(t=round(1 * 100 * DT, 9), qrange=self.qrange["s1"], condition=self.most.copy()).values.astype(float)
+        if ev == "B":
+            return Bobj.relaxation(qconst=3.3).values.astype(float)
+        raise ValueError(ev)
+
+    def reference(self, ev):
+        """table of the definition for one event (None: not compared with the reference, only fresh vs re-used)"""
+        log = self.cls == "log"
+        times = [(s_ - self.steps[0]) * DT for s_ in self.steps]
+        if ev in ("r1", "r2", "rc", "rd"):
+            sel = {"r1": None, "r2": None, "rc": self.most, "rd": self.one}[ev]
+            if log and sel is not None:
+                sel = np.repeat(sel[:1], self.T, axis=0)
+            ref = X.Ref(self.xs, self.sigma, 0.3, False, sel=sel, nls=self.nls)
+            return ref.relaxation(5.0 if ev in ("r2", "rd") else 2 * math.pi, times, log=log)
+        if ev == "B":
+            ref = X.Ref(self.xsB, [1.0] * 3, 0.5, True)
+            return ref.relaxation(3.3, [(s_ - self.stepsB[0]) * DT for s_ in self.stepsB], log=log)
+        k = 3 if ev == "s3" else 1
+        ref = X.Ref(self.xs, self.sigma, 0.3, False, sel=self.most if ev == "sc" else None, nls=self.nls)
+        qv = RD.qset(self.L, self.qrange["s3" if ev == "s3" else "s1"], self.d)
+        got = ref.sq4(k, self.xs if self.mode == "xu" else X.wrap(self.xs, self.L), self.L, qv)
+        if got is None or got[1] < X.CUT_MARGIN:
+            return None
+        return np.array([[g[1], g[2]] for g in got[0]]), got[1]
+
+
+def obj_state(D):
+    """digest of everything the object carries (for counting distinct states of the search)"""
+    hh = hashlib.sha1()
+    for k in sorted(vars(D)):
+        v = vars(D)[k]
+        if isinstance(v, np.ndarray):
+            hh.update(k.encode() + np.ascontiguousarray(v).tobytes())
+        elif isinstance(v, (list, tuple)) and v and isinstance(v[0], np.ndarray):
+            hh.update(k.encode() + b"".join(np.ascontiguousarray(x).tobytes() for x in v))
+        elif isinstance(v, (int, float, str, bool)) or v is None:
+            hh.update(f"{k}={v!r}".encode())
+        else:
+            hh.update(k.encode())
+    return hh.hexdigest()[:12]
+
+
+def run_sequence(case):
+    R = Result()
+    W = SeqWorld(case)
+    evs = SEQ_EVENTS_LIN if W.cls == "lin" else SEQ_EVENTS_LOG
+    sig = {"d": W.d, "mode": W.mode, "neigh": W.neigh, "cls": W.cls, "clause": "sequence"}
+    # fresh-object result of every event, validated against the definition
+    fresh = {}
+    domain = {}
+    for ev in evs:
+        Aobj, _ = W.fresh_A()
+        Bobj, _ = W.fresh_B()
+        ref = W.reference(ev)
+        domain[ev] = ref is not None
+        if ref is None:
+            continue  # sq4 outside its domain (empty mobile subset): the event is not executed
+        fresh[ev] = W.call(ev, Aobj, Bobj)
+        exp, margin = ref
+        if ev[0] == "s":
+            ok = fresh[ev].shape == exp.shape and np.allclose(fresh[ev][:, 0], exp[:, 0], rtol=0, atol=0.6e-8) and \
+                np.allclose(fresh[ev][:, 1], exp[:, 1], rtol=1e-9, atol=0.5000001e-8 + 1e-11)
+        else:
+            ok = table_diff(fresh[ev], exp, margin < X.CUT_MARGIN) is None
+        if not ok:
+            R.fail(f"event {ev} on a fresh object differs from the definition", sig=dict(sig, event=ev, what="fresh_vs_reference"), exp=exp, obs=fresh[ev])
+    live = [e for e in evs if domain[e]]
+    states = set()
+    calls = 0
+    rows = 0
+    nfail = 0
+    h = hashlib.sha1()
+    # breadth-first over call sequences; a state is (re)built by replaying the sequence on fresh objects, every call's result is
+    # compared with the fresh-object result of the same call
+    frontier = [[case["first"]]] if case["first"] in live else []
+    while frontier and nfail < 3:
+        nxt = []
+        for seq in frontier:
+            (Aobj, snaps), (Bobj, _) = W.fresh_A(), W.fresh_B()
+            before = [[s_.positions.copy() for s_ in sn.snapshots] for sn in snaps]
+            for pos, ev in enumerate(seq):
+                out = W.call(ev, Aobj, Bobj)
+                calls += 1
+                rows += out.shape[0]
+                f = fresh[ev]
+                if out.shape != f.shape or not np.allclose(out, f, rtol=2e-9, atol=2e-11, equal_nan=True):
+                    nfail += 1
+                    R.fail(f"call sequence {seq}: call #{pos + 1} ({ev}) on the re-used object differs from the same call on a fresh object",
+                           sig=dict(sig, event=ev, what="reused_vs_fresh", after=seq[pos - 1] if pos else "none"), exp=f, obs=out)
+                    break
+            for sn, bf in zip(snaps, before):
+                for s_, b_ in zip(sn.snapshots, bf):
+                    if not np.array_equal(s_.positions, b_):
+                        R.fail(f"snapshot positions modified by the call sequence {seq}", sig=dict(sig, what="input_modified"))
+                        nfail += 1
+                        break
+            st = obj_state(Aobj) + obj_state(Bobj)
+            states.add(st)
+            h.update(st.encode())
+            if len(seq) < case["depth"]:
+                for ev in live:
+                    nxt.append(seq + [ev])
+        frontier = nxt
+    if W.nfile:
+        os.remove(W.nfile)
+    R.out = h.hexdigest()[:16]
+    R.states = len(states)
+    R.transitions = calls
+    R.elem = rows
+    R.nontrivial = calls > 1
+    R.notes = {"events_in_domain": live}
+    return R
+
+
 # ------------------------------------------------------------------------------------------ entry point
 def subs(tier, seed):
     def with_seed(g):
@@ -632,4 +1009,22 @@ def subs(tier, seed):
                         "vectors (" + ("<= 2 deviations" if q else "full product") + ") on the N=4 joint core; (lag,state) with an empty "
                         "mobile subset skipped; non-trivial = some subset has >= 2 particles",
             bounds={"max_deviations": 2 if q else None}),
+        Sub("C06.scale", with_seed(gen_scale), run_scale,
+            rule="SIZE enumeration (one fixed value pattern per size, no value alphabet): (frames, particles) in "
+                 + str(SCALE_TN_QUICK if q else SCALE_TN_FULL) + " x "
+                 + ("8 hand-made option vectors" if q else "8 hand-made option vectors + all vectors with <= 1 deviation from the default")
+                 + " over d{2,3} x input{xu, x wrapped, both} (box edges (m+4, m, m+2): the shortest edge is y) x {slow,fast} x selection{none, "
+                 "1 / N-1 / N/2 particles, a different set in every frame} x neighbour file{none, ragged lists changing every frame with the maximum "
+                 "coordination number at the first / last particle only, formula, one particle with 30 = max_neighbors} x diameters x qconst x a; "
+                 "every row of Dynamics.relaxation and LogDynamics.relaxation and Dynamics.sq4 at lags {1,3,6,7,T/2,T-2} (t/interval inexact for "
+                 "3,6,7) against a vectorised transcription of the definitions organised by origin frame; non-trivial = some overlap strictly "
+                 "between 0 and 1 and some S4 lag inside the domain",
+            bounds={"sizes": len(SCALE_TN_QUICK if q else SCALE_TN_FULL), "max_frames": 129, "max_particles": 257 if q else 1000}),
+        Sub("C06.sequence", with_seed(gen_sequence), run_sequence,
+            rule="explicit-state search over call sequences of length <= 3 on ONE Dynamics / LogDynamics object (plus a second live object B with "
+                 "other diameters / cutoff / mode): events relaxation(2pi), relaxation(5), relaxation(2pi, mask N-1), relaxation(5, mask 1), "
+                 "sq4(lag 1), sq4(lag 3, other qrange), sq4(lag 1, mask), B.relaxation(3.3); all 8+64+512 sequences per world "
+                 "(d x input mode x {no, ragged} neighbour file), split by first event; every call's result == the same call on a fresh object "
+                 "(which is compared with the definition); snapshots unchanged; states = distinct digests of the objects' attributes",
+            bounds={"depth": 3, "events": 8}),
     ]
